@@ -24,6 +24,8 @@ def expected_accept(regs, scope, sel, arg):
     ok = {'gin.macro': ['value'], 'gin.constant': [], 'gin.singleton': ['constructor']}[full]
     return arg in ok, 'builtin'
   c = [x for x in regs if x['sel'] == full][0]
+  if c.get('shape') == 'method' and '.' not in sel:
+    return False, 'method-named-without-its-class'
   if arg not in ginm.sig_names(c['sig']) and not c['sig']['varkw']:
     return False, 'no-such-parameter'
   if c['allow'] and arg not in c['allow']:
@@ -54,7 +56,10 @@ class BindEngine(Engine):
         ['dumpcalls']]}]
 
   def gen(self, rng, tier):
-    regs = ginm.gen_regs(rng, lists=0.6, allow_req=False, sels=['f', 'm.f', 'n.m.g', 'm.g', 'pkg.h', 'n.f'], shapes=True)
+    regs = ginm.gen_regs(rng, lists=0.6, allow_req=False, sels=['f', 'm.f', 'n.m.g', 'm.g', 'pkg.h', 'n.f'], shapes=True, methods=0.35)
+    for c in regs:
+      if c.get('shape', 'fn') == 'fn' and rng.random() < 0.2:
+        c['shape'] = 'wrapped_fn'       # parameters are those of the wrapped function, not the wrapper's **kwargs
     ops = []
     for _ in range(rng.randint(2, 12)):
       c = rng.choice(regs)
@@ -73,6 +78,9 @@ class BindEngine(Engine):
         sel = c['sel'].split('.')[-1]      # possibly ambiguous
       else:
         sel = rng.choice(['nosuch', 'x.' + c['sel'], 'gin.macro', 'macro'])
+      if c.get('shape') == 'method' and rng.random() < 0.3:
+        # the name the method had BEFORE its class was registered (<its module>.<name>): no longer a configurable
+        sel = 'gvmod1.' + c['sel'].split('.')[-1]
       sc = '/'.join(ginm.gen_scope(rng, 2))
       v = ginm.gen_plain(rng, 1)
       key = (sc + '/' if sc else '') + sel + '.' + p
